@@ -4,11 +4,13 @@ use crate::driver::{fail, Ctx, PResult, Property, Tier};
 use crate::exact::*;
 use crate::gen::func::*;
 use crate::gen::inst::*;
+use crate::model::{KIND_CONTINUOUS, LE_ZERO};
 use crate::props::c03::check_partial;
 use crate::props::c05::{describe_inst, fp_instance, sorted_state};
 use crate::tape::Tape;
 use ommx::v1;
 use serde_json::json;
+use std::collections::BTreeSet;
 
 pub struct C10;
 
@@ -21,7 +23,7 @@ impl Property for C10 {
          oracle = exact partial evaluation of every parametric function at p; non-trivial = a parameter multiplied with a decision variable; distinct = sha256(instance, parameter ids, assignment)"
     }
     fn required_labels(&self) -> Vec<String> {
-        ["extras", "missing", "complete", "param-in-constraint", "param-in-objective", "param-times-variable", "roundtrip", "removed-constraint", "hints", "regime=general", "regime=dyadic"].iter().map(|s| s.to_string()).collect()
+        ["extras", "missing", "complete", "param-in-constraint", "param-in-objective", "param-times-variable", "roundtrip", "removed-constraint", "hints", "regime=general", "regime=dyadic", "big-sorted-function", "parameter-id-twice-in-sorted-list", "missing+extra-between-declared-ids"].iter().map(|s| s.to_string()).collect()
     }
     fn cases(&self, tier: Tier) -> usize {
         match tier {
@@ -39,6 +41,7 @@ impl Property for C10 {
         let mode = t.weighted(&[6, 3, 3, 2]); // complete, extras, missing, roundtrip
         let pmask = t.u16();
         let pvals: Vec<f64> = (0..6).map(|_| gen_value(t, regime)).collect();
+        let big = if t.p(12) { Some((*t.pick(&SIZES[4..13]), t.byte() as u64)) } else { None };
         let mut cfg = InstCfg::new(regime);
         cfg.hints = true;
         cfg.func.max_degree = 4;
@@ -112,6 +115,55 @@ impl Property for C10 {
                 s.decision_variables.retain(|i| !pids.contains(i));
             }
         }
+        // a long linear function, terms in ascending id order with some ids twice in a row, one or two of its ids
+        // being parameters (so only a small fraction of what it mentions is instantiated)
+        let mut big_params: Vec<(u64, f64)> = vec![];
+        if let (Some((n, seed)), true) = (big, mode != 3) {
+            ctx.label("big-sorted-function");
+            let base = 6000u64;
+            let mut terms: Vec<(u64, f64)> = vec![];
+            let mut id = base;
+            let mut twice: Vec<u64> = vec![];
+            for i in 0..n as u64 {
+                terms.push((id, derived_coeff(seed, i)));
+                if (derived_coeff(seed ^ 0x33, i).abs() * 16.0) as u64 % 6 != 0 {
+                    id += 1;
+                } else {
+                    twice.push(id);
+                }
+            }
+            let all: BTreeSet<u64> = terms.iter().map(|x| x.0).collect();
+            let mut chosen: BTreeSet<u64> = BTreeSet::new();
+            if let Some(x) = twice.get(seed as usize % twice.len().max(1)) {
+                chosen.insert(*x);
+                ctx.label("parameter-id-twice-in-sorted-list");
+            }
+            chosen.insert(base + (seed % n as u64).min(id - base));
+            for x in &all {
+                if chosen.contains(x) {
+                    let mut p = v1::Parameter::default();
+                    p.id = *x;
+                    pi.parameters.push(p);
+                    big_params.push((*x, derived_value(seed, *x)));
+                } else {
+                    let mut v = v1::DecisionVariable::default();
+                    v.id = *x;
+                    v.kind = KIND_CONTINUOUS;
+                    v.bound = Some(crate::mk::bound(-16.0, 16.0));
+                    pi.decision_variables.push(v);
+                }
+            }
+            let f = crate::mk::flin(crate::mk::linear(terms, derived_coeff(seed, 9_999)));
+            if seed % 2 == 0 {
+                pi.objective = Some(f);
+            } else {
+                let mut c = v1::Constraint::default();
+                c.id = 888_888;
+                c.equality = LE_ZERO;
+                c.function = Some(f);
+                pi.constraints.push(c);
+            }
+        }
         let obj0 = pi.objective.clone().unwrap_or_else(|| crate::mk::fconst(0.0));
         if syntactic_ids(&obj0).iter().any(|i| pids.contains(i)) {
             ctx.label("param-in-objective");
@@ -135,6 +187,9 @@ impl Property for C10 {
         for (i, id) in pids.iter().enumerate() {
             params.entries.insert(*id, pvals[i % pvals.len()]);
         }
+        for (id, v) in &big_params {
+            params.entries.insert(*id, *v);
+        }
         match mode {
             1 => {
                 ctx.label("extras");
@@ -145,6 +200,18 @@ impl Property for C10 {
                 ctx.label("missing");
                 let victim = pids[(pmask as usize >> 8) % pids.len()];
                 params.entries.remove(&victim);
+                // ... possibly together with a value for an id that is nothing at all (a mistyped id), lying between the
+                // declared parameter ids
+                let declared: BTreeSet<u64> = pi.parameters.iter().map(|p| p.id).collect();
+                let (lo, hi) = (*declared.iter().next().unwrap(), *declared.iter().next_back().unwrap());
+                if pmask & 1 == 1 && victim > lo && victim < hi {
+                    let taken: BTreeSet<u64> = declared.iter().copied().chain(pi.decision_variables.iter().map(|v| v.id)).collect();
+                    let cand = [victim + 1, victim - 1, lo + 1, hi - 1, lo + (hi - lo) / 2];
+                    if let Some(x) = cand.iter().find(|x| **x > lo && **x < hi && !taken.contains(x)) {
+                        params.entries.insert(*x, 0.75);
+                        ctx.label("missing+extra-between-declared-ids");
+                    }
+                }
             }
             _ => ctx.label("complete"),
         }
